@@ -143,7 +143,7 @@ MISUSE = ['cross_st', 'cross_add', 'cross_mul_rvar', 'cross_add_rvar', 'foreign_
           'read_unsolved', 'read_failed', 'ambiguity_after_constraints', 'foreign_adapt', 'foreign_set_minmax',
           'foreign_amb_forall_explin', 'foreign_amb_forall_exppw', 'cross_concat', 'concat_dvar_rvar', 'foreign_adapt_ldr',
           'cross_maxof', 'cross_matmul_rvar', 'cross_st_cone', 'cross_st_piecewise', 'foreign_second_in_list', 'call_unsolved',
-          'cross_kldiv', 'cross_convex', 'foreign_scen_adapt', 'second_objective_special']
+          'cross_kldiv', 'cross_convex', 'foreign_scen_adapt', 'second_objective_special', 'foreign_set_forall_warm']
 
 
 def gen_case(seed, cfg):
@@ -154,8 +154,16 @@ def gen_case(seed, cfg):
     # themed cases: the misuse kinds that need two ambiguity sets (or two robust models) get enough partners
     theme = rng.random()
     srcs = cfg.get('sources') or (['combo-dro'] if theme < 0.2 else ['combo-ro', 'ro-sep', 'combo-dro'] if theme < 0.3 else SOURCES)
+    twins = rng.random() < 0.15        # the same declared model twice (equal sizes, equal structure), built interleaved
+    src0 = None
     for i in range(nm):
-        mm = gen_model(random.Random(subseed(seed, 'model', i)), rng.choice(srcs))
+        src = rng.choice(srcs)
+        if twins and i > 0:
+            mm = gen_model(random.Random(subseed(seed, 'model', 0)), src0)
+        else:
+            mm = gen_model(random.Random(subseed(seed, 'model', i)), src)
+        if i == 0:
+            src0 = src
         pre = 'ABC'[i] + '_'
         mm['pre'] = pre
         mm['rops'] = rename_ops(mm['ops'], pre)
@@ -185,6 +193,8 @@ def gen_case(seed, cfg):
             st_['built'].add(op['id'])
             if op['op'] == 'cons' and op['id'].endswith(('cy0', 'ct0')):
                 st_['y_used'] = True
+        if op['op'] == 'forall' and 'set' in op:
+            st_.setdefault('foralls', []).append(op['id'])
         if op['op'] == 'obj':
             st_['obj'] = True
         if op['op'] == 'st':
@@ -221,7 +231,7 @@ def gen_case(seed, cfg):
         # a step that opens a narrow window (a fresh decision rule not yet used, a fresh ambiguity set, a dro decision before
         # any constraint) is followed at once, every other time, by the misuse that needs that window
         window = {'ldr': ['foreign_adapt_ldr'], 'amb': ['foreign_supp', 'foreign_expt', 'foreign_prob', 'foreign_second_in_list'],
-                  'dvar': ['foreign_adapt', 'foreign_scen_adapt'], 'forall': ['foreign_set_forall', 'foreign_amb_forall'],
+                  'dvar': ['foreign_adapt', 'foreign_scen_adapt'], 'forall': ['foreign_set_forall', 'foreign_amb_forall', 'foreign_set_forall_warm'],
                   'st': ['ambiguity_after_constraints', 'foreign_amb_objective']}.get(op['op'])
         if window and n_mis < max_mis and rng.random() < 0.5:
             mo = gen_misuse(rng, models, state, only=window, first=i)
@@ -259,7 +269,7 @@ def gen_misuse(rng, models, state, only=None, first=None):
     elif rng.random() < 0.7:
         # kinds with narrow preconditions first, rarest first (a random cut keeps the head of the list from monopolising)
         rare = ['foreign_amb_forall', 'foreign_amb_forall_exppw', 'foreign_amb_forall_explin', 'foreign_prob', 'foreign_amb_objective',
-                'foreign_set_forall', 'foreign_adapt_ldr', 'foreign_expt', 'foreign_second_in_list', 'foreign_set_minmax',
+                'foreign_set_forall_warm', 'foreign_set_forall', 'foreign_adapt_ldr', 'foreign_expt', 'foreign_second_in_list', 'foreign_set_minmax',
                 'foreign_scen_adapt', 'second_objective_special', 'cross_kldiv', 'cross_convex', 'ambiguity_after_constraints', 'foreign_adapt', 'foreign_supp', 'cross_mul_rvar', 'cross_add_rvar',
                 'concat_dvar_rvar', 'cross_matmul_rvar', 'cross_maxof', 'second_objective', 'cross_st_piecewise']
         cut = rng.randrange(len(rare))
@@ -366,6 +376,9 @@ def gen_misuse(rng, models, state, only=None, first=None):
             if kind == 'foreign_set_forall' and a_rob and b_rv and A['kind'] == 'ro':
                 zb = pb + rng.choice(b_rv)
                 return [dict(mk, op='forall', id=pa + rng.choice(a_rob), to='bad', set=[['<=', ['f', 'abs', ['v', zb]], ['c', 1.0]]])]
+            if kind == 'foreign_set_forall_warm' and a_rob and A['kind'] == 'ro' and sb.get('foralls'):
+                # the set-constraint OBJECTS the other model has already used in one of its own forall() calls
+                return [dict(mk, op='forall', id=pa + rng.choice(a_rob), to='bad', setfrom=rng.choice(sb['foralls']))]
             if kind == 'foreign_amb_forall' and a_rob and b_amb and A['kind'] == 'dro':
                 return [dict(mk, op='forall', id=pa + rng.choice(a_rob), to='bad', amb=pb + b_amb[0])]
             if kind == 'foreign_amb_forall_explin' and A['kind'] == 'dro' and a_dv and b_amb:
